@@ -61,7 +61,7 @@ def gen_template(rng, ids, depth_max=3, allow_region=True):
         kids = []
         if depth < depth_max and rng.random() < 0.4:
             kids.append(gen_nested(depth + 1))
-        return Sec(new_id(), "nested", fresh("n"), cached, keyexpr, kids, attrs)
+        return Sec(new_id(), "nested", fresh("n"), cached, keyexpr, kids, attrs, buffered=rng.random() < 0.3)
 
     for _ in range(rng.randint(0, 3)):
         cached, keyexpr, attrs = mk_flags(rng)
@@ -108,7 +108,9 @@ def gen_template(rng, ids, depth_max=3, allow_region=True):
         return (" " + " ".join(a)) if a else ""
 
     def body_text(s):
-        inner = "".join("${%s()}" % k.name for k in s.kids)
+        # a buffered def returns its text: the call site wraps what it is given, so that a def which writes its text itself and
+        # returns '' shows (the wrapping of a correct return value is taken off again by norm())
+        inner = "".join(("${'<<' + %s() + '>>'}" if k.buffered else "${%s()}") % k.name for k in s.kids)
         return "[%d#${tick(%d)}@${x}:%s]" % (s.sid, s.sid, inner)
 
     def def_text(s):
@@ -120,7 +122,7 @@ def gen_template(rng, ids, depth_max=3, allow_region=True):
     lines.append("[%d#${tick(%d)}@${x}:" % (page.sid, page.sid))
     for it in body_items:
         if it.kind == "def":
-            lines.append("${%s()}" % it.name)
+            lines.append(("${'<<' + %s() + '>>'}" if it.buffered else "${%s()}") % it.name)
         elif it.kind == "block":
             lines.append('<%%block name="%s"%s>%s</%%block>' % (it.name, attrs_of(it), body_text(it)))
         else:
@@ -200,7 +202,13 @@ def all_secs(s, acc=None):
 
 
 def norm(out):
-    return re.sub(r"\s+", "", out)
+    out = re.sub(r"\s+", "", out)
+    # '<<' + text + '>>' around the text of a buffered def (the text always begins with '[' and ends with ']')
+    prev = None
+    while prev != out:
+        prev = out
+        out = re.sub(r"<<(\[[^<>]*\])>>", r"\1", out)
+    return out
 
 
 def run_case(rng, case_no, impl_name):
@@ -274,12 +282,19 @@ def run_case(rng, case_no, impl_name):
             results.append("")
         else:
             cands = [s for s in secs if s.cached and not s.keyexpr and s.kind != "page"]
-            if not cands or impl_name == "beaker":      # BeakerCacheImpl has put() but no set()
+            if not cands:
                 continue
             s = rng.choice(cands)
             dn = ("render_" + s.name) if s.kind in ("def", "block") else (s.name or key_name(s))
-            t.cache.set(key_name(s), "[%d#77@9:]" % s.sid, __M_defname=dn)
+            try:
+                t.cache.set(key_name(s), "[%d#77@9:]" % s.sid, __M_defname=dn)
+                pres = ""
+            except Exception as e:  # noqa
+                pres = "raised:" + type(e).__name__
             ops.append(("P", ti, key_name(s), s.sid))
+            results.append(pres)
+            logs.append((be.RecordingImpl.log[mark:], before, dict(counters)))
+            continue
             results.append("")
         logs.append((be.RecordingImpl.log[mark:], before, dict(counters)))
     return {"uris": uris, "tmpls": tmpls, "ops": ops, "results": results, "logs": logs, "counters": dict(counters),
@@ -323,6 +338,10 @@ def judge(ctx, case):
                     return
         if op[0] == "P":
             invalidated.discard((op[1], op[2]))
+            if res.startswith("raised:"):
+                ctx.violation({"uris": case["uris"], "sources": [t[1] for t in case["tmpls"]], "ops": [list(o) for o in case["ops"][:i + 1]], "backend": case["impl"], "result": res},
+                              "cache.set raised", tags=["c17.set"])
+                return
         if op[0] != "R":
             continue
         if case["impl"] != "beaker" and len(set(mid)) == len(mid):
